@@ -43,6 +43,7 @@ type OutObs struct {
 	Dropped []int `json:"dropped"`
 	MaxW    int   `json:"maxw"` // most Write calls ever in progress on the connection at once
 	InW     int   `json:"inw"`
+	Closed  bool  `json:"closed"` // the broker has closed the connection
 }
 
 type OutLine struct {
@@ -145,7 +146,7 @@ func (r *outRun) at(pt string) {
 }
 
 var outPoints = map[string]bool{"loop.dequeued": true, "write.afterClosedCheck": true, "write.encoded": true,
-	"write.unlocked": true, "read.handled": true}
+	"write.unlocked": true, "read.handled": true, "disconnect.written": true}
 
 func (r *outRun) sched(point string, cl *mqtt.Client) {
 	if cl == nil || cl.Net.Conn == nil || !outPoints[point] {
@@ -191,6 +192,8 @@ func (h *outHook) OnPacketSent(cl *mqtt.Client, pk packets.Packet, b []byte) {
 	case packets.Pingresp:
 		h.r.npr++
 		h.r.sent = append(h.r.sent, 200+h.r.npr)
+	case packets.Disconnect:
+		h.r.sent = append(h.r.sent, 300)
 	}
 	h.r.mu.Unlock()
 }
@@ -245,6 +248,8 @@ func (r *outRun) pump() {
 		case refcodec.Pingresp:
 			r.nprW++
 			r.wire = append(r.wire, 200+r.nprW)
+		case refcodec.Disconnect:
+			r.wire = append(r.wire, 300)
 		default:
 			r.wire = append(r.wire, -int(p.Type)-100)
 		}
@@ -260,7 +265,7 @@ func (r *outRun) observe() OutObs {
 	}
 	r.mu.Lock()
 	o := OutObs{Q: cl.VerifOutboundLen(), Ob: ob, Wire: append([]int{}, r.wire...), Sent: append([]int{}, r.sent...),
-		Dropped: append([]int{}, r.drop...), MaxW: int(r.conn.maxW.Load()), InW: int(r.conn.inW.Load())}
+		Dropped: append([]int{}, r.drop...), MaxW: int(r.conn.maxW.Load()), InW: int(r.conn.inW.Load()), Closed: r.conn.isClosed()}
 	r.mu.Unlock()
 	if len(r.raw) > 0 {
 		o.Wire = append(o.Wire, -1) // bytes that are not a whole packet
@@ -456,10 +461,14 @@ func RunOutPath(sc OutScenario) (lines []OutLine) {
 		ln := OutLine{Ev: "step", Name: sc.Name, Cap: sc.Cap, I: i + 1, W: st.W, G: st.G, OG: st.OG}
 		var got map[string]string
 		switch {
-		case st.W == "env" && st.G == "ping":
-			_ = r.conn.Send([]byte{0xC0, 0})
+		case st.W == "env" && (st.G == "ping" || st.G == "bad"):
+			if st.G == "ping" {
+				_ = r.conn.Send([]byte{0xC0, 0})
+			} else {
+				_ = r.conn.Send(refcodec.Encode(c)) // a second CONNECT: answered with DISCONNECT 0x82, then the client is stopped
+			}
 			got = r.collect(map[string]bool{"rd": true, "loop": false}, "")
-			ln.Got, ln.GotO = "ping", got["rd"]
+			ln.Got, ln.GotO = st.G, got["rd"]
 		case st.W == "env":
 			nextID++
 			total := map[string]int{"pub:small": outSmall, "pub:big": outBig, "pub:over": outMPS + 20}[st.G]
@@ -512,6 +521,14 @@ func RunOutPath(sc OutScenario) (lines []OutLine) {
 	}
 	r.mu.Unlock()
 	rest := waitFor(func() bool {
+		if r.conn.isClosed() {
+			select {
+			case <-fin:
+				return true
+			default:
+				return false
+			}
+		}
 		if cl.VerifOutboundLen() != 0 || cl.VerifOutboundQty() != 0 || r.conn.inW.Load() != 0 || !r.conn.ReaderBlocked() {
 			return false
 		}
